@@ -322,6 +322,87 @@ fn arb_window() -> impl Strategy<Value = Vec<ROp>> {
         })
 }
 
+/// The prune delay used by cases with the "surviving link past the prune delay" shape.
+pub const T_PRUNE: u64 = 200;
+
+/// "Surviving link past the prune delay": one remote links to two (or three) lanes while a prune
+/// timer is pending for it (the one armed when it attached, or one left over from an "unlink, link
+/// again" episode), one of the lanes fails (invalid tag) or closes, then the clock passes the prune
+/// delay with the remote otherwise idle, then the surviving lane emits, and the agent may end. The
+/// remote still has an open link, so it must not be pruned; the link must stay usable and be closed
+/// with exactly one unlinked at the end.
+fn arb_prune_shape() -> impl Strategy<Value = Vec<ROp>> {
+    (
+        (any::<bool>(), any::<bool>(), any::<bool>(), any::<bool>(), arb_small_cap()),
+        (prop_oneof![4 => Just(0u8), 1 => Just(1), 1 => Just(2)], any::<bool>(), 1usize..4),
+        (prop_oneof![Just(0u64), Just(1), Just(50), Just(300)], any::<bool>(), any::<bool>()),
+        (any::<u8>(), any::<u8>(), 0usize..3),
+        prop_oneof![3 => Just(0u8), 2 => Just(1), 1 => Just(2)],
+    )
+        .prop_map(|((new_remote, swap, third, relink, cap), (fail_kind, emit_before, k), (extra, split, settle_after), (s1, s2, more), term)| {
+            // the remote: a fresh one (its attach-time prune timer is certainly pending) or remote 0
+            let r: u16 = if new_remote { u16::MAX } else { 0 };
+            let (a, b): (u8, u8) = if swap { (1, 0) } else { (0, 1) };
+            let mut v = vec![];
+            if new_remote {
+                v.push(ROp::Sim(Op::Attach { in_cap: 128, out_cap: if cap < 8 { 64 } else { cap } }));
+            }
+            v.push(ROp::Sim(Op::Link { r, lane: a }));
+            v.push(ROp::Sim(Op::Link { r, lane: b }));
+            if third {
+                v.push(ROp::Sim(Op::Sync { r, lane: 2 }));
+            }
+            if relink {
+                // leaves a prune timer behind if this empties the remote's links at that moment
+                v.push(ROp::Sim(Op::Unlink { r, lane: b }));
+                v.push(ROp::Sim(Op::Link { r, lane: b }));
+            }
+            v.push(ROp::Sim(Op::Pump { r, n: usize::MAX }));
+            v.push(ROp::Sim(Op::Settle));
+            if emit_before {
+                v.push(ROp::Emit { lane: a, id: 0, shape: s1 });
+                v.push(ROp::LaneFlush { lane: a, n: usize::MAX });
+            }
+            match fail_kind {
+                0 => {
+                    v.push(ROp::BadTag { lane: b });
+                    v.push(ROp::LaneFlush { lane: b, n: usize::MAX });
+                }
+                1 => {
+                    v.push(ROp::Emit { lane: b, id: 0, shape: s2 });
+                    v.push(ROp::BadTag { lane: b });
+                    v.push(ROp::LaneFlush { lane: b, n: usize::MAX });
+                }
+                _ => v.push(ROp::CloseLane { lane: b }),
+            }
+            if settle_after {
+                v.push(ROp::Sim(Op::Settle));
+            } else {
+                v.push(ROp::Sim(Op::Poll { k }));
+            }
+            let total = T_PRUNE + extra;
+            if split {
+                v.push(ROp::Sim(Op::Advance { ms: total / 2 }));
+                v.push(ROp::Sim(Op::Poll { k: 2 }));
+                v.push(ROp::Sim(Op::Advance { ms: total - total / 2 }));
+            } else {
+                v.push(ROp::Sim(Op::Advance { ms: total }));
+            }
+            v.push(ROp::Sim(Op::Poll { k: k + 2 }));
+            for i in 0..=more {
+                v.push(ROp::Emit { lane: a, id: 0, shape: s1.wrapping_add(i as u8) });
+                v.push(ROp::LaneFlush { lane: a, n: usize::MAX });
+                v.push(ROp::ProbeRead { r, n: usize::MAX });
+            }
+            match term {
+                0 => v.push(ROp::AgentEnd),
+                1 => v.push(ROp::Sim(Op::Stop)),
+                _ => {}
+            }
+            v
+        })
+}
+
 pub fn arb_case(max_ops: usize) -> impl Strategy<Value = Case> {
     (
         arb_params(),
@@ -333,8 +414,11 @@ pub fn arb_case(max_ops: usize) -> impl Strategy<Value = Case> {
         proptest::collection::vec((any::<u16>(), arb_fault(), any::<bool>()), 0..3),
         // a stop-vote window at the end of the case (30 %)
         proptest::option::weighted(0.3, (arb_window(), prop_oneof![3 => Just(1usize), 2 => Just(2), 1 => Just(4)], 1usize..4)),
+        // or (15 %) the "surviving link past the prune delay" shape
+        proptest::option::weighted(0.15, (arb_prune_shape(), 0usize..3)),
     )
-        .prop_map(|(mut params, lanes, allow_empty, bad_keys, mut ops, faults, window)| {
+        .prop_map(|(mut params, lanes, allow_empty, bad_keys, mut ops, faults, window, prune_shape)| {
+            let window = if prune_shape.is_some() { None } else { window };
             for (pos, f, settle_first) in faults {
                 let at = pick_index(pos, ops.len() + 1);
                 ops.insert(at, f);
@@ -349,6 +433,20 @@ pub fn arb_case(max_ops: usize) -> impl Strategy<Value = Case> {
                 ops.truncate(ops.len().min(keep * 8));
                 ops.retain(|o| !matches!(o, ROp::AgentEnd | ROp::Sim(Op::Stop) | ROp::Sim(Op::Advance { .. })));
                 ops.extend(w);
+            }
+            if let Some((shape, keep)) = prune_shape {
+                params.prune_remote_delay_ms = T_PRUNE;
+                params.inactive_timeout_ms = 10_000_000;
+                // a short prologue in which no time passes (the attach-time prune timers stay pending)
+                // and nothing ends the agent, fails a lane or drops a remote
+                ops.truncate(ops.len().min(keep * 6));
+                ops.retain(|o| {
+                    !matches!(
+                        o,
+                        ROp::AgentEnd | ROp::BadTag { .. } | ROp::CloseLane { .. } | ROp::Sim(Op::Stop) | ROp::Sim(Op::Advance { .. }) | ROp::Sim(Op::Drop { .. })
+                    )
+                });
+                ops.extend(shape);
             }
             let mut next = 1u32;
             for op in ops.iter_mut() {
@@ -735,6 +833,10 @@ pub struct Obs {
     pub init_failed: bool,
     /// Stop-vote model (harness side, op granularity): a request was fully written while at least one
     /// but not all of the read / write / HTTP tasks had an outstanding stop vote and the agent ran.
+    /// virtual milliseconds (sum of Advance ops) when each lane's invalid tag was flushed, and at the
+    /// quiescent checkpoint
+    pub bad_tag_flushed_ms: Vec<(usize, u64)>,
+    pub checkpoint_ms: u64,
     pub req_while_vote: bool,
     /// A request that makes the write task schedule a write (link, unlink, anything but a command
     /// for a missing lane) was written while the write task's own vote was outstanding.
@@ -806,6 +908,7 @@ pub fn execute(case: &Case) -> Obs {
         let mut seen_written: Vec<usize> = vec![];
         let mut seen_flushed: Vec<usize> = vec![0; lanes.len()];
         let (mut req_while_vote, mut coord_while_write_voted) = (false, false);
+        let mut bad_tag_flushed_ms: Vec<(usize, u64)> = vec![];
         if !init_failed {
             for op in &case.ops {
                 match op {
@@ -926,6 +1029,9 @@ pub fn execute(case: &Case) -> Obs {
                     seen_written[ri] = written;
                 }
                 for (li, l) in lanes.iter().enumerate() {
+                    if l.emissions.iter().any(|e| e.kind == EmKind::BadTag && e.flushed.is_some()) && !bad_tag_flushed_ms.iter().any(|(x, _)| *x == li) {
+                        bad_tag_flushed_ms.push((li, now_ms));
+                    }
                     let flushed = l.emissions.iter().filter(|e| e.flushed.is_some()).count();
                     if flushed > seen_flushed[li] {
                         seen_flushed[li] = flushed;
@@ -1008,6 +1114,8 @@ pub fn execute(case: &Case) -> Obs {
             done_at_end,
             result: sim.result.clone(),
             init_failed,
+            bad_tag_flushed_ms,
+            checkpoint_ms: now_ms,
             req_while_vote,
             coord_while_write_voted,
         }
